@@ -411,6 +411,9 @@ func (s *Sess) Do(cmd byte, data []byte, faults ...Fault) Resp {
 	if s.Ended {
 		return Resp{Kind: "gone", Ended: true}
 	}
+	if s.w.vw.VerifTwQueued() > server.VerifTwCap-8 {
+		panic("sessrig: too many commands for one world (inert time wheel queue nearly full)")
+	}
 	s.w.beginStep(s.Name, faults)
 	s.conn.in <- packet(append([]byte{cmd}, data...))
 	s.wait()
@@ -442,6 +445,16 @@ func (s *Sess) Disconnect(faults ...Fault) Resp {
 	s.Ended = true
 	fired, calls := s.w.endStep()
 	return Resp{Kind: "none", Ended: true, Fired: fired, Calls: calls}
+}
+
+// Close ends every session that is still running (client disconnect) so that no goroutine
+// outlives the world. Call it after the verdict of a replay has been computed.
+func (w *World) Close() {
+	for _, s := range w.sessions {
+		if !s.Ended {
+			s.Disconnect()
+		}
+	}
 }
 
 // State returns the session's executor state (only valid between commands).
